@@ -193,8 +193,8 @@ def quad_budget_2d(gammas_pos, dist, pdf_func, params):
                 ((gmax, np.inf, gmax, np.inf), 1 - dist.cdf1(gmax) - dist.cdf2(gmax) + dist.joint_cdf(gmax, gmax))]
         corners = 0.0
         for (a, b, c, d), ex in lims:
-            # dblquad(f, a, b, gfun, hfun): outer variable (second argument of f) runs over [a, b]
-            for outer, inner in (((a, b), (c, d)), ((c, d), (a, b))):
-                w = scipy.integrate.dblquad(pdf_func, outer[0], outer[1], lambda _: inner[0], lambda _: inner[1], args=[params], **kw)[0]
-                corners = max(corners, 0.0) + 0.5 * abs(w - ex)
+            # dblquad(f, a, b, gfun, hfun): the outer variable (second argument of f = gamma2) runs over [a, b], the inner one
+            # (first argument = gamma1) over [gfun, hfun] - the orientation Cache2D.integrate uses for every corner
+            w = scipy.integrate.dblquad(pdf_func, c, d, lambda _: a, lambda _: b, args=[params], **kw)[0]
+            corners += abs(w - ex)
     return edges + corners
